@@ -41,6 +41,8 @@ CHECKS = {
          "Pairs of strings built through different storage histories are compared with every reader (==, cmp, hash, Display/Debug, foreign == in both orders, map lookups by &str, AsRef/Deref) against the same operations on the texts.", "DESIGN.md §6 C17"),
  "C18": ("fault_enumeration", "lsv", "callback-panic position enumeration over proptest-generated histories, String-after-same-panic as oracle, shadow-heap leak accounting",
          "Every callback-taking operation of each generated history is re-run with its callback panicking at invocation k for every k that fires; compared with String after the identical panic, plus isolation, refcount and leak invariants.", "DESIGN.md §6 C18"),
+ "C20": ("exploration", "lsv", "niche/layout sweep, Option round trips in proptest histories, and a configuration-matrix differential: identical seeded histories digested in every feature set x optimisation level (and hooks-off builds)",
+         "Sizes and alignment asserted; Some(s) matched as Some for every inline final byte and heap/static length; the same generated histories run with all C01-C03 oracles in the default build and produce identical value and allocator-event digests in {default, no-default-features, all features} x {optimised without debug assertions, unoptimised} and in hooks-off builds; all 8 feature combinations of the crate build.", "DESIGN.md §6 C20"),
 }
 NOT_YET = {}
 def main():
